@@ -2,11 +2,10 @@
    Formatter: `format_res` (Fmt/Formatter.v) models FormatPacketDsl with an explicit FPanic outcome
    at every dereference of an optional parse-tree child and every hidden-token query; it is compared
    with the real formatter on every run and PROVED never to panic, for every rune list.
-   Visitor: `visit` (Model/Visitor.v) has an explicit VPanic outcome at every unchecked type
-   assertion / nil dereference of packet_dsl_parser.go and model.go; it CAN panic (five reachable
-   sites, recorded findings visitor-C11:panic), and `nopanic_frag` is a decidable fragment of
-   parse trees proved sufficient for a result; the harness evaluates it on every tree and no
-   text inside it may panic.  Generators: not modelled for panics; the crash scan of harness/crash.py
+   Visitor: `visit` (Model/Visitor.v) has an explicit VPanic outcome at every type assertion /
+   pointer dereference of packet_dsl_parser.go and model.go that is not guarded in the code; it is
+   compared with the real visitor on every run and PROVED to return a result for every parse tree
+   (the five panic sites of the unrepaired visitor are diagnostics now).  Generators: not modelled for panics; the crash scan of harness/crash.py
    classifies recovered panics by site (recorded findings crash-...).  "Never hangs / never overflows
    the stack" of the real Go code is observed under limits, not proved: the models are total. *)
 From FP Require Import PT Flatten Lexer Parser Formatter FmtSafe FmtProofs Visitor NoPanic VisitorWitnesses VisitorProofs.
@@ -21,38 +20,28 @@ Theorem C11_format_total_thm : forall s, exists r, format_res s = FOk r \/ forma
 Proof. exact (C11_format_total). Qed.
 Print Assumptions C11_format_total_thm.
 
-(* inside the fragment the visitor returns a result (possibly with diagnostics) *)
+(* the visitor returns a result (possibly with diagnostics) for EVERY parse tree *)
+Theorem C11_visit_never_panics : forall t, exists r, visit t = VOk r.
+Proof. exact (visit_never_panics). Qed.
+Print Assumptions C11_visit_never_panics.
+
+Theorem C11_visit_no_panic t site : visit t <> VPanic site.
+Proof. exact (visit_no_panic t site). Qed.
+Print Assumptions C11_visit_no_panic.
+
+(* the structural fragment that the unrepaired visitor needed (kept: it is now implied by the total theorem) *)
 Theorem C11_nopanic_frag_sound t : nopanic_frag t = true -> exists r, visit t = VOk r.
 Proof. exact (nopanic_frag_sound t). Qed.
 Print Assumptions C11_nopanic_frag_sound.
 
-(* recorded findings: the full statement "visit never panics" is FALSE of the faithful model *)
-Theorem C11_visit_may_panic : ~ (forall t, exists r, visit t = VOk r).
-Proof. exact (visit_may_panic). Qed.
-Print Assumptions C11_visit_may_panic.
+(* the former panic sites answer with a diagnostic *)
+Theorem C11_attribute_misuse_diagnosed :
+  only_diag w_pad_on_basic DK_PadNotFixed 1 /\ only_diag w_lengthof_on_object DK_AttrOnObject 1 /\
+  only_diag w_len_named_nil_meta DK_UnknownMeta 1 /\ only_diag w_sum_named_nil_meta DK_UnknownMeta 1.
+Proof. exact (attribute_misuse_diagnosed). Qed.
+Print Assumptions C11_attribute_misuse_diagnosed.
 
-(* recorded finding: a reachable panic site *)
-Theorem C11_panic_attr_reachable : visit w_pad_on_basic = VPanic site_attr.
-Proof. exact (panic_attr_reachable). Qed.
-Print Assumptions C11_panic_attr_reachable.
-
-(* recorded finding: a reachable panic site *)
-Theorem C11_panic_gettype_reachable : visit w_lengthof_on_object = VPanic site_gettype.
-Proof. exact (panic_gettype_reachable). Qed.
-Print Assumptions C11_panic_gettype_reachable.
-
-(* recorded finding: a reachable panic site *)
-Theorem C11_panic_lenfield_reachable : visit w_len_named_nil_meta = VPanic site_lenfield.
-Proof. exact (panic_lenfield_reachable). Qed.
-Print Assumptions C11_panic_lenfield_reachable.
-
-(* recorded finding: a reachable panic site *)
-Theorem C11_panic_checksum_reachable : visit w_sum_named_nil_meta = VPanic site_checksum.
-Proof. exact (panic_checksum_reachable). Qed.
-Print Assumptions C11_panic_checksum_reachable.
-
-(* recorded finding: a reachable panic site *)
-Theorem C11_panic_packetdef_reachable : visit w_undeclared_len_target_panic = VPanic site_packetdef.
-Proof. exact (panic_packetdef_reachable). Qed.
-Print Assumptions C11_panic_packetdef_reachable.
-
+Theorem C11_undeclared_len_target_witness :
+  only_diag w_undeclared_len_target DK_UnknownLenTarget 1 /\ only_diag w_undeclared_len_target_panic DK_UnknownLenTarget 1.
+Proof. exact (undeclared_len_target_witness). Qed.
+Print Assumptions C11_undeclared_len_target_witness.
